@@ -21,7 +21,8 @@ From Tinode Require Import Base.Util Pure.Acs Sys.Topic Sys.TopicTac Sys.TopicFr
   Sys.TopicCohC08 Sys.TopicCohC08Proofs Sys.TopicCohC08Step Sys.TopicCohC08Run Sys.TopicCohC08Query Sys.TopicCohC08Wit
   Sys.TopicCohC08Reject Sys.TopicCohC08Ack Sys.TopicCohC08Wit2 Sys.TopicCohC08Keys Sys.TopicCohC08Bisim
   Sys.PermBranchC08c Sys.PermBranchC08cProofs Sys.PermAckFullC08c Sys.PermBranchC08cWit
-  Sys.MarksLagC08d Sys.TopicKindsC07 Sys.KindsOfflineC08d.
+  Sys.MarksLagC08d Sys.TopicKindsC07 Sys.KindsOfflineC08d Sys.ChanPrivC08d.
+From Tinode Require Sys.TopicDesc.
 Import ListNotations.
 Open Scope Z_scope.
 
@@ -213,6 +214,39 @@ Print Assumptions c08_p2p_offline_set_same_as_live.
 Example c08_ex_mode_names_a_mode :
   match parse_acs [74; 82; 87; 83; 68]%N with Some m0 => (m0 =? ModeUnset)%N = false | None => True end.
 Proof. exact mode_abs_JRWSD_c08d. Qed.
+
+(* ------------------------------------------------------------------ *)
+(* part d, channel-enabled group topics (Sys/ChanPrivC08d.v): desc.private of full subscribers (rows under grpXXX)
+   and channel readers (rows under chnXXX), the topic named either way *)
+(* ACK => STORED when the name used agrees with the kind of the requester: an acknowledged {set desc private} is in
+   the requester's OWN row and in the cache *)
+Theorem c08_chan_private_ack_is_stored_partial : forall s c u aschan tok ischan cur row,
+  alookup u (cc_users c) = Some (ischan, cur) -> cs_own_c08d s ischan u = Some row -> aschan = ischan ->
+  let '(s', c', fr) := cstep_c08d s c (CSetPriv u aschan tok) in
+  fr = [CCtrl 200] ->
+  cs_own_c08d s' ischan u = Some (fst (TopicDesc.merge_val cur tok)) /\
+  alookup u (cc_users c') = Some (ischan, fst (TopicDesc.merge_val cur tok)).
+Proof. exact chan_set_ack_stored_c08d. Qed.
+(* the full statement (whatever name was used) is refuted by the faithful model: replySetDesc picks the row by the
+   name (asChan), a missing row is a silent success (finding set-private-under-other-name-not-stored) *)
+Definition c08_chan_private_ack_is_stored_statement : Prop := chan_ack_stored_statement_c08d.
+Theorem c08_chan_private_ack_is_stored_refuted : ~ c08_chan_private_ack_is_stored_statement.
+Proof. exact chan_ack_stored_refuted_c08d. Qed.
+(* a channel reader's attach caches the request's private, not the row's (finding chan-reader-private-not-loaded) *)
+Theorem c08_chan_reader_attach_reports_null : forall s c u row,
+  alookup u (cc_users c) = None -> alookup u (cs_chn s) = Some row ->
+  let '(s1, c1, _) := cstep_c08d s c (CAttachReader u 0) in
+  snd (cstep_c08d s1 c1 (CGetDesc u)) = [CDesc 0].
+Proof. exact chan_reader_attach_null_c08d. Qed.
+(* full subscribers under their own name: cached private = stored private is kept by every {set desc private} *)
+Theorem c08_chan_member_coherent_step : forall s c u v tok,
+  member_coh_c08d s c v ->
+  let '(s', c', _) := cstep_c08d s c (CSetPriv u false tok) in member_coh_c08d s' c' v.
+Proof. exact member_set_coh_c08d. Qed.
+Print Assumptions c08_chan_private_ack_is_stored_partial.
+Print Assumptions c08_chan_private_ack_is_stored_refuted.
+Print Assumptions c08_chan_reader_attach_reports_null.
+Print Assumptions c08_chan_member_coherent_step.
 
 (* ------------------------------------------------------------------ *)
 (* the full statements and their refutations *)
